@@ -409,3 +409,8 @@ func (x *Explorer) ExtractOf(tup *Term, i int, typ types.Type) *Term { return x.
 func (x *Explorer) OpaqueOf(v ssa.Value) *Term {
 	return x.T.mk(Term{Kind: KOpaque, Ref: v, Type: v.Type()})
 }
+
+// ParamTerm is the term of a parameter of the explored root function.
+func (x *Explorer) ParamTerm(p *ssa.Parameter) *Term {
+	return x.T.mk(Term{Kind: KParam, Ref: p, Type: p.Type()})
+}
